@@ -5,7 +5,7 @@ import progen
 import runlib
 
 THEOREMS = ["Mut.needs_outer_iff", "Mut.write_rejected_iff", "Mut.frame", "Mut.call_changes_only_addressed",
-            "Mut.bindArgs_spec"]
+            "Mut.bindArgs_spec", "Types.Ty.autoderef_takes_no_address", "Types.Ty.subAutoderef_holdsAddress"]
 
 STRUCT = dict(kind='struct', name='S', members=[('a', None), ('b', None)])
 
